@@ -38,6 +38,7 @@ import (
 	"time"
 
 	"github.com/facebookincubator/dns/dnsrocks/db"
+	"github.com/facebookincubator/dns/dnsrocks/dnsdata/rdb"
 	"github.com/facebookincubator/dns/dnsrocks/dnsserver"
 	"github.com/facebookincubator/dns/dnsrocks/dnsserver/stats"
 	"github.com/miekg/dns"
@@ -251,6 +252,17 @@ func c12gen(g *gen, tier string, w *bufio.Writer) {
 					}
 					evs = append(evs, fmt.Sprintf("s1@%d@%s", pt, a), "R", "c1", "q@"+b2, "q@"+a)
 					fmt.Fprintf(w, "race %s %s\n", b, strings.Join(evs, ";"))
+					// the same across a catch-up reload (RocksDB), for a query that has finished reading (the
+					// authority and additional sections are read after serve.answered)
+					// (a query still reading across a catch-up is the known finding of C05)
+					if b != "cdb" && pt >= 5 {
+						for i, e := range evs {
+							if e == "R" {
+								evs[i] = "K"
+							}
+						}
+						fmt.Fprintf(w, "race %s %s\n", b, strings.Join(evs, ";"))
+					}
 				}
 			}
 		}
@@ -270,9 +282,15 @@ func c12gen(g *gen, tier string, w *bufio.Writer) {
 		l := 8 + g.intn(40)
 		reloads := 0
 		var evs []string
+		// on RocksDB a third of the histories reload by catching the served instance up with its
+		// primary (same path) instead of switching to another path
+		rel := "R"
+		if b != "cdb" && i%3 == 1 {
+			rel = "K"
+		}
 		for j := 0; j < l; j++ {
 			if reloads < c12gens-1 && g.chance(1, 10) {
-				evs = append(evs, "R")
+				evs = append(evs, rel)
 				reloads++
 				continue
 			}
@@ -476,12 +494,33 @@ func c12sched(backend string, evs []string) (string, string) {
 		return "setup:" + e, "FAIL:setup"
 	}
 	cst := &c12stats{}
-	C, err := c12newHandler(world[0].path, backend, dnsserver.CacheConfig{Enabled: true, LRUSize: 1024, WRSTimeout: 0}, cst)
+	pathC, pathU := world[0].path, world[0].path
+	catchUp := false
+	for _, ev := range evs {
+		if ev == "K" {
+			catchUp = true
+		}
+	}
+	if catchUp {
+		// catch-up reloads change the database in place: private copies of generation 0
+		if backend == "cdb" {
+			return "bad-op", "-"
+		}
+		tmp, err := os.MkdirTemp("", "c12work")
+		if err != nil {
+			return "setup:tmp", "FAIL:setup"
+		}
+		defer os.RemoveAll(tmp)
+		pathC, pathU = tmp+"/C", tmp+"/U"
+		c05copyDir(world[0].path, pathC)
+		c05copyDir(world[0].path, pathU)
+	}
+	C, err := c12newHandler(pathC, backend, dnsserver.CacheConfig{Enabled: true, LRUSize: 1024, WRSTimeout: 0}, cst)
 	if err != nil {
 		return "setup:cached-handler", "FAIL:setup"
 	}
 	defer C.Close()
-	U, err := c12newHandler(world[0].path, backend, dnsserver.CacheConfig{}, &stats.DummyStats{})
+	U, err := c12newHandler(pathU, backend, dnsserver.CacheConfig{}, &stats.DummyStats{})
 	if err != nil {
 		return "setup:uncached-handler", "FAIL:setup"
 	}
@@ -590,7 +629,27 @@ func c12sched(backend string, evs []string) (string, string) {
 	for _, ev := range evs {
 		p := strings.Split(ev, "@")
 		switch {
+		case ev == "K":
+			if curGen+1 >= len(world) {
+				continue
+			}
+			c12cur = nil
+			for _, x := range []struct {
+				h    *dnsserver.FBDNSDB
+				path string
+			}{{C, pathC}, {U, pathU}} {
+				if err := c12applyDiff(x.path, curGen, curGen+1); err != nil {
+					return "applydiff-error:" + err.Error(), "FAIL:setup"
+				}
+				if err := x.h.Reload(dnsserver.ReloadSignal{Kind: dnsserver.PartialReload}); err != nil {
+					return "reload-error", "FAIL:reload"
+				}
+			}
+			curGen++
 		case ev == "R":
+			if catchUp {
+				return "bad-op", "-" // a full reload would leave the private copies
+			}
 			if curGen+1 >= len(world) {
 				continue
 			}
@@ -629,4 +688,37 @@ func c12sched(backend string, evs []string) (string, string) {
 		}
 	}
 	return strings.Join(out, ","), verdict
+}
+
+// c12applyDiff publishes generation b at a RocksDB path holding generation a (the primary's update
+// the served secondary instance then catches up with).
+func c12applyDiff(dir string, a, b int) error {
+	la, lb := c12data(a), c12data(b)
+	ina, inb := map[string]bool{}, map[string]bool{}
+	for _, l := range la {
+		ina[l] = true
+	}
+	for _, l := range lb {
+		inb[l] = true
+	}
+	var d []string
+	for _, l := range la {
+		if !inb[l] {
+			d = append(d, "-"+l)
+		}
+	}
+	for _, l := range lb {
+		if !ina[l] {
+			d = append(d, "+"+l)
+		}
+	}
+	f, err := os.CreateTemp("", "c12diff")
+	if err != nil {
+		return err
+	}
+	f.WriteString(strings.Join(d, "\n") + "\n")
+	f.Close()
+	defer os.Remove(f.Name())
+	// the diff file's mtime is the SOA serial of `.` lines only; none here
+	return rdb.ApplyDiff(f.Name(), dir)
 }
